@@ -123,3 +123,20 @@ func VerifBuildBlock(parent *types.BlockHeader, timestamp time.Time, height uint
 	}
 	return block, nil
 }
+
+// VerifGroupForkSwitch drives the group fork switch of the sync path: the branch
+// received from a peer is verified into the fork store (groupChainFork.rcv +
+// triggerOnFork) and then put on the chain (triggerOnChain: removal down to the
+// common ancestor, then AddGroup one by one). Returns the fork-verification
+// error (if any) and triggerOnChain's result.
+func VerifGroupForkSwitch(ancestor *types.Group, branch []*types.Group) (error, bool) {
+	fork := newGroupChainFork(ancestor)
+	defer fork.destroy()
+	for i, g := range branch {
+		fork.rcv(g, i == len(branch)-1)
+	}
+	if err, _ := fork.triggerOnFork(nil); err != nil {
+		return err, false
+	}
+	return nil, fork.triggerOnChain(groupChainImpl)
+}
